@@ -206,6 +206,53 @@ def main_case(rng, root):
     return files, os.path.join(root, main_rel), "\n".join(inl) + "\n", subs, used
 
 
+def regref_digest(p):
+    """operations with register transforms described by their text, registers and values at fixed measurement results"""
+    from blackbird import RegRefTransform
+
+    def d(v):
+        if isinstance(v, RegRefTransform):
+            pts = []
+            for k in range(2):
+                vals = [0.37 + 0.61 * r + 0.29 * k for r in v.regrefs]
+                try:
+                    pts.append(round(float(v.func(*vals)), 9))
+                except Exception as e:  # noqa: BLE001
+                    pts.append(type(e).__name__)
+            return ("transform", sorted(v.regrefs), sorted(zip(v.regrefs, [0.37 + 0.61 * r for r in v.regrefs]))[:0], pts)
+        if isinstance(v, list):
+            return [d(x) for x in v]
+        return (type(v).__name__, repr(v))
+    return [(o["op"], [d(a) for a in o.get("args", [])], sorted((k, d(v)) for k, v in o.get("kwargs", {}).items()), [int(m) for m in o["modes"]]) for o in p.operations]
+
+
+def regref_case(rng, root):
+    """an included template whose parameters are used bare ({p}) and a call that binds them to measured registers or
+    expressions over them: the same as writing the register expression at that place of the inlined operation"""
+    ps = rng.sample(["p", "phi", "gain", "th", "w"], rng.randint(1, 3))
+    modes = sorted(rng.sample([0, 1, 2, 5, 9], rng.randint(1, 3)))
+    forms = ["Zgate({%s}) | %d", "Kgate(k={%s}) | %d", "Dgate(0.5, {%s}) | %d", "Rgate(phi={%s}) | %d"]
+    stmts = []
+    for q in ps:
+        for _ in range(rng.randint(1, 2)):
+            stmts.append((rng.choice(forms), q, rng.choice(modes)))
+    for m in modes:
+        stmts.append(("Vac%s | %d", None, m))
+    rng.shuffle(stmts)
+    sub_text = "name Feed\nversion 1.0\n\n" + "".join((f % (q, m) if q else f % ("", m)) + "\n" for f, q, m in stmts)
+    regs = rng.sample([3, 4, 6, 7, 8, 10, 12], 2)
+    lines = ["name main", "version 1.0", 'include "feed.xbb"', ""] + ["MeasureX | %d" % r for r in regs]
+    inl = ["name main", "version 1.0", ""] + ["MeasureX | %d" % r for r in regs]
+    for _ in range(rng.randint(1, 3)):
+        cm = rng.sample([0, 1, 2, 5, 9, 11], len(modes))
+        mm = dict(zip(modes, cm))
+        vals = {q: rng.choice(["q%d" % regs[0], "2 * q%d + 1" % regs[1], "q%d - q%d" % (regs[0], regs[1]), "q%d / 4" % regs[1], "0.25", "3"]) for q in ps}
+        lines.append("Feed(%s) | [%s]" % (", ".join("%s=%s" % kv for kv in vals.items()), ", ".join(map(str, cm))))
+        for f, q, m in stmts:
+            inl.append(f.replace("{%s}", "(%s)") % (vals[q], mm[m]) if q else f % ("", mm[m]))
+    return {os.path.join(root, "feed.xbb"): sub_text, os.path.join(root, "main.xbb"): "\n".join(lines) + "\n"}, os.path.join(root, "main.xbb"), "\n".join(inl) + "\n"
+
+
 def write_files(files):
     for p, t in files.items():
         os.makedirs(os.path.dirname(p), exist_ok=True)
@@ -366,6 +413,31 @@ def run(tier, seed):
                     if len(res.violations) >= 5:
                         break
                 os.chdir(scratch)
+                shutil.rmtree(root, ignore_errors=True)
+            # keyword arguments of an include call that are measured registers (or expressions over them)
+            for i in range(25 if quick else 500):
+                if len(res.violations) >= 5:
+                    break
+                root = os.path.join(scratch, "R%d" % i)
+                files, main_path, inlined = regref_case(rng, root)
+                write_files(files)
+                impl.reset_tables()
+                msg = None
+                try:
+                    p = blackbird.load(main_path)
+                except Exception as e:  # noqa: BLE001
+                    msg = "an include call whose keyword arguments are measured registers fails: %s: %s" % (type(e).__name__, str(e)[:120])
+                if msg is None:
+                    impl.reset_tables()
+                    da, db = regref_digest(p), regref_digest(blackbird.loads(inlined))
+                    if da != db:
+                        k = next((j for j, (a, b) in enumerate(zip(da, db)) if a != b), min(len(da), len(db)))
+                        msg = "an include call with measured-register arguments differs from its inlining at operation %d: %s vs %s" % (k, da[k] if k < len(da) else None, db[k] if k < len(db) else None)
+                res.case(files[main_path] + files[os.path.join(root, "feed.xbb")], True, None)
+                res.count("regref-valued-include-call")
+                if msg:
+                    ok = False
+                    res.violate(msg, {"check": "include", "files": {k.replace(root, "<root>"): v for k, v in files.items()}, "main": main_path.replace(root, "<root>"), "inlined": inlined})
                 shutil.rmtree(root, ignore_errors=True)
             # several loads in ONE process: same relative path strings in different directories, an include file
             # edited between two loads, and a later program that merely uses an operation named like an earlier include
